@@ -285,6 +285,24 @@ static void nh_frees() // "frees memory": the next attempt succeeds
     g_fail_armed = 0;
 }
 
+// process-wide leak balance of a stateless allocator type (0 where leak checking is compiled out)
+template <class A, class = void>
+struct balance_of
+{
+    static std::ptrdiff_t get()
+    {
+        return 0;
+    }
+};
+template <class A>
+struct balance_of<A, decltype(void(A::allocated_))>
+{
+    static std::ptrdiff_t get()
+    {
+        return std::ptrdiff_t(A::allocated_);
+    }
+};
+
 // one case: arm a failure of the allocation primitive, request `shape`: must throw something derived from std::bad_alloc
 // of the out_of_memory family with the handler called first; never null; the allocator must be usable afterwards
 template <class A>
@@ -304,6 +322,7 @@ static std::string fail_case(const char* an, int sh, int arm, bool verbose)
         return "SKIP";
     g_nh_calls     = 0;
     g_fail_persist = nh != 0;
+    std::ptrdiff_t balance_before = balance_of<A>::get();
     if (nh)
         std::set_new_handler(nh == 1 ? nh_uninstall : nh == 2 ? nh_pass_on : nh_frees);
     g_fail_armed = nh ? 1 : arm;
@@ -367,6 +386,10 @@ static std::string fail_case(const char* an, int sh, int arm, bool verbose)
         return "fail-wrong-exception|failure of the underlying allocation was not signalled by the out_of_memory family";
     if (g_oom_handler == 0)
         return "fail-no-handler|out_of_memory thrown without calling its handler first";
+    // the failure is not absorbed into the allocator's state either: nothing was obtained, so nothing is booked
+    if (balance_of<A>::get() != balance_before)
+        return fmt("fail-booked|a request that failed and obtained nothing changed the allocator's process-wide leak balance by %td bytes",
+                   balance_of<A>::get() - balance_before);
     // usable afterwards
     void* q = nullptr;
     VERIF_GUARDED(oc, { q = traits::allocate_node(alloc, 24, 8); });
